@@ -299,9 +299,15 @@ static void sc_pool_double_stop() {
     for (int i = 0; i < ITER / 10 + 1; i++) {
         thread_pool pool(2);
         start_gate g(2);
-        pool.run_detached([&] { g.arrive(); pool.stop(); });
+        std::atomic<bool> job_done{false};
+        pool.run_detached([&] { g.arrive(); pool.stop(); job_done.store(true, std::memory_order_release); });
         g.arrive();
         pool.stop();
+        // the owner keeps the pool alive until the job that refers to it has returned from ITS stop(): when the job's stop() won the
+        // worker handles, the owner's stop() returns at once and does not wait for anybody - leaving the scope then would destroy the
+        // pool under the other worker's feet, which is a life-time error of this scenario program (it showed as an unrelated
+        // ThreadSanitizer report `thread_pool::thread_pool` vs `worker` under load), not a race between the two stop() calls
+        while (!job_done.load(std::memory_order_acquire)) std::this_thread::yield();
     }
 }
 
